@@ -62,6 +62,11 @@ type World struct {
 	SnapAlloc map[uint64]uint64 // allocator at the last successful commit
 	Handles   map[int]any       // cid -> *atree.Array | *atree.OrderedMap (latest lineage)
 
+	armed         *Armed
+	viaIter       map[int]bool // children whose next handle is obtained by mutable iteration
+	BeforeStep    func(w *World, st *Step)
+	commitJournal map[RegID][]byte // registers before the current commit attempt (mid-commit crash rollback)
+
 	StepNo  int
 	Results []string // canonical per-step results (O-DIFF)
 	Stats   *Stats
@@ -90,8 +95,10 @@ func NewWorld(cfg Config, stats *Stats) *World {
 		Ctl:     NewCallbackCtl(),
 		Model:   NewModel(),
 		Handles: map[int]any{},
+		viaIter: map[int]bool{},
 		Stats:   stats,
 	}
+	activeCtl = w.Ctl
 	w.cmp = MakeComparator(w.Ctl)
 	w.hip = MakeHashInputProvider(w.Ctl)
 	atree.VerifSetThreshold(cfg.Slab)
@@ -197,7 +204,11 @@ func (w *World) handle(c *MCont) (any, *Violation) {
 		}
 		var val atree.Value
 		var err error
-		if c.Parent.IsMap {
+		if w.viaIter[c.CID] {
+			// iteration origin: walk the parent's mutable iterator up to the child
+			val, err = w.childByIteration(ph, c, idx, key)
+			w.Stats.Inc("handle.iteration")
+		} else if c.Parent.IsMap {
 			val, err = ph.(*atree.OrderedMap).Get(w.cmp, w.hip, w.valueOfKey(key))
 		} else {
 			val, err = ph.(*atree.Array).Get(uint64(idx))
@@ -295,6 +306,7 @@ func (w *World) materialize(s *VSpec, owner uint64, target *MCont) (atree.Value,
 			return nil, nil, v
 		}
 		w.Stats.Inc("reattach")
+		c.Detached = false
 		return h.(atree.Value), c, nil
 	case s.Arr != nil:
 		if _, dup := w.Model.Conts[s.Arr.CID]; dup {
@@ -433,6 +445,7 @@ func (w *World) detached(old MVal, s atree.Storable, keep bool) *Violation {
 	ch := childOf(old)
 	if ch != nil && keep {
 		ch.Parent = nil
+		ch.Detached = true
 		w.Stats.Inc("child.detached-kept")
 		return nil
 	}
@@ -471,4 +484,43 @@ func (w *World) sortedHandleCIDs() []int {
 	}
 	sort.Ints(ids)
 	return ids
+}
+
+// childByIteration obtains the child's value through the parent's mutable iterator.
+func (w *World) childByIteration(ph any, c *MCont, idx int, key MVal) (atree.Value, error) {
+	if c.Parent.IsMap {
+		it, err := ph.(*atree.OrderedMap).Iterator(w.cmp, w.hip)
+		if err != nil {
+			return nil, err
+		}
+		want := keyString(key)
+		for {
+			k, v, err := it.Next()
+			if err != nil {
+				return nil, err
+			}
+			if k == nil {
+				return nil, fmt.Errorf("mutable iteration of parent ended before key %s", describe(key))
+			}
+			if km, ok := modelOfScalar(k); ok && keyString(km) == want {
+				return v, nil
+			}
+		}
+	}
+	it, err := ph.(*atree.Array).Iterator()
+	if err != nil {
+		return nil, err
+	}
+	for i := 0; ; i++ {
+		v, err := it.Next()
+		if err != nil {
+			return nil, err
+		}
+		if v == nil {
+			return nil, fmt.Errorf("mutable iteration of parent ended before index %d", idx)
+		}
+		if i == idx {
+			return v, nil
+		}
+	}
 }
